@@ -149,6 +149,7 @@ impl<'transient, 'lifespan: 'transient> FormulaParser {
                         self.count_start = i;
                         self.state = FormulaParserState::Count;
                     } else if c == '[' {
+                        self.element_end = i;
                         self.isotope_start = i + 1;
                         self.state = FormulaParserState::Isotope;
                     } else if c == '(' {
@@ -340,6 +341,20 @@ impl<'transient, 'lifespan: 'transient> FormulaParser {
                     isotope,
                 };
                 acc.inc(elt_spec, count);
+            }
+            FormulaParserState::IsotopeToCount => {
+                let elt = self.parse_element_from_string(string, periodic_table);
+                let isotope: u16 = match string[self.isotope_start..self.isotope_end].parse::<u16>() {
+                    Ok(val) => val,
+                    Err(_msg) => {
+                        return Err(FormulaParserError::IsotopeCountMalformed);
+                    }
+                };
+                let elt_spec = ElementSpecification {
+                    element: elt,
+                    isotope,
+                };
+                acc.inc(elt_spec, 1);
             }
             FormulaParserState::GroupToGroupCount => {
                 let group = Self::parse_with_table(
